@@ -115,6 +115,11 @@ func (x *Exec) step(st *State) (forks []*State, done bool) {
 	case *ssa.FieldAddr:
 		base := x.ptr(st, in.X)
 		T := in.X.Type().Underlying().(*types.Pointer).Elem()
+		if base.Kind == PLocal || base.Kind == PLocalField {
+			s, _ := isStructType(T)
+			fr.vals[in] = &PtrV{Kind: PLocalField, Alloc: base.Alloc, Frame: base.Frame, Path: append(append([]int{}, base.Path...), in.Field), Elem: s.Field(in.Field).Type()}
+			break
+		}
 		ref := x.refOf(st, base)
 		if x.safety && !x.knownNonNil(st, ref) {
 			x.oblige(st, "nonnil", x.instrLabel(in, "nonnil"), mkNe(ref, mkInt(0)), "pointer dereferenced by field access is not nil", in.Pos())
@@ -327,7 +332,7 @@ func (x *Exec) doAlloc(st *State, in *ssa.Alloc) Value {
 	t := in.Type().(*types.Pointer).Elem()
 	_, isStruct := isStructType(t)
 	_, isArray := t.Underlying().(*types.Array)
-	if !in.Heap && !isStruct && !isArray {
+	if !in.Heap && !isArray && (!isStruct || localStructOK(in)) {
 		fr := st.frame()
 		fr.locals[in] = x.zeroValue(t)
 		return &PtrV{Kind: PLocal, Alloc: in, Frame: len(st.frames) - 1, Elem: t}
@@ -796,4 +801,37 @@ func (x *Exec) boundedLoop(fr *Frame, k int) bool {
 	}
 	ls, _ := x.loopSpecFor(fr.fn, k)
 	return ls == nil
+}
+
+// localStructOK: a local struct variable whose address is only used to read/write it or its fields can be kept by value
+// (no heap object), so that copying a slice element into it does not touch the heap the element lives in.
+func localStructOK(a *ssa.Alloc) bool {
+	var ok func(v ssa.Value, depth int) bool
+	ok = func(v ssa.Value, depth int) bool {
+		refs := v.Referrers()
+		if refs == nil || depth > 6 {
+			return false
+		}
+		for _, r := range *refs {
+			switch r := r.(type) {
+			case *ssa.UnOp:
+				if r.X != v {
+					return false
+				}
+			case *ssa.Store:
+				if r.Addr != v {
+					return false // the address itself is stored somewhere
+				}
+			case *ssa.FieldAddr:
+				if r.X != v || !ok(r, depth+1) {
+					return false
+				}
+			case *ssa.DebugRef:
+			default:
+				return false
+			}
+		}
+		return true
+	}
+	return ok(a, 0)
 }
